@@ -39,6 +39,16 @@ STARTS = ["in-ready", "in-connected", "out-await-cea", "out-ready", "in-waiting-
 BEHAVIOURS = ["answer", "defer", "raise", "threading-answer", "threading-raise", "threading-none", "answer_norc"]
 
 
+_OTHER = []
+
+
+def other_command(n):
+    if not _OTHER:
+        from vf import libmodel as L
+        _OTHER.extend(sorted(c for c in L.command_table() if c not in (257, 280, 282, 272)) + [7777])
+    return _OTHER[(n * 7919) % len(_OTHER)]
+
+
 def R_enc(code, app, flags, hbh, e2e, body):
     from vf import refcodec as R
     return R.enc_msg(code, app=app, flags=flags, hbh=hbh, e2e=e2e, avps=body)
@@ -193,8 +203,13 @@ class Case:
             p.send(M.ccr(name, REALM, REALM, app=4, hbh=hbh, e2e=e2e, omit=("cc_request_type", "session_id")), letter)
             req = (272, 4)
         elif letter == "REQcmd":
-            p.send(M.generic_request(7777, name, REALM, REALM, 4, hbh, e2e), letter)
-            req = (7777, 4)
+            # a request of some other command: over the executions every registered command code (typed and
+            # untyped) and an unknown one take their turn
+            code = other_command(h64("other", self.start, self.behaviour, repr(self.script), hbh))
+            p.send(M.generic_request(code, name, REALM, REALM, 4, hbh, e2e), letter)
+            req = (code, 4)
+            d = self.run.cov.setdefault("other_commands_requested", {})
+            d[str(code)] = d.get(str(code), 0) + 1
         elif letter == "REQapp":
             p.send(M.ccr(name, REALM, REALM, app=99, hbh=hbh, e2e=e2e), letter)
             req = (272, 99)
